@@ -135,7 +135,7 @@ def replay_cases(cases):
         return []
     env = dict(os.environ)
     env.pop("NUMBA_DISABLE_JIT", None)
-    env["PYTHONPATH"] = VERIF + os.pathsep + env.get("PYTHONPATH", "")
+    env["PYTHONPATH"] = os.pathsep.join([x for x in (os.environ.get("VERIF_PYDREX_SRC"), VERIF, env.get("PYTHONPATH", "")) if x])
     env["NUMBA_CACHE_DIR"] = os.path.join(VERIF, ".numba_cache")
     py = os.path.join(VERIF, ".venv", "bin", "python")
     p = subprocess.run(
@@ -164,7 +164,9 @@ def finish(prop, tier, reports, t0, level="model_checking", extra_cov=None, must
         first = {}
         for q in queries:
             tags = q.get("tags") or {}
-            if q["name"] in have or tags.get("optional") or q["verdict"] not in ("sat", "unknown"):
+            if q["name"] in have or q["verdict"] not in ("sat", "unknown") or tags.get("aux") or tags.get("hypothesis") or tags.get("allow_sat"):
+                continue
+            if q["verdict"] == "unknown" and tags.get("optional"):
                 continue
             d = mod.default_cex(q["name"])
             if not d:
@@ -230,7 +232,11 @@ def finish(prop, tier, reports, t0, level="model_checking", extra_cov=None, must
                          and q["name"] not in reproduced_names]
     spurious_core = [c["name"] for c in spurious if c.get("must_hold", True)]
     cex_names = {c["name"] for c in cex}
-    unexplained_sat = [q["name"] for q in queries if q["verdict"] == "sat" and q["name"] not in cex_names and not (q.get("tags") or {}).get("optional")]
+    def _free_sat(q):
+        t = q.get("tags") or {}
+        return t.get("aux") or t.get("hypothesis") or t.get("allow_sat")
+
+    unexplained_sat = [q["name"] for q in queries if q["verdict"] == "sat" and q["name"] not in cex_names and not _free_sat(q)]
     unreached = [q["name"] for q in reach if q["verdict"] != "sat"]
     truncated = [r.task for r in reports if r.truncated]
     unsupported = sorted({u for r in reports for u in r.unsupported})
@@ -248,13 +254,17 @@ def finish(prop, tier, reports, t0, level="model_checking", extra_cov=None, must
         paths.update(r.paths)
         notes.extend(r.notes)
         samples.extend(r.samples[:3])
-    distinct = len({q["name"] for q in queries if q["verdict"] in ("unsat", "sat")})
+    distinct = len({q["name"] for q in queries if q["verdict"] in ("unsat", "sat") and not (q.get("tags") or {}).get("concrete_claim")})
+    concrete = len({q["name"] for q in queries if (q.get("tags") or {}).get("concrete_claim")})
     wall = time.time() - t0
     cov = {
         "evaluations": len(queries) + len(reach),
         "distinct_nontrivial": distinct,
         "rule": "one evaluation = one SMT query (negated claim under a path condition, or a reachability witness); "
-        "distinct_nontrivial = distinctly named obligations whose query contained symbolic terms and that the solver decided",
+        "distinct_nontrivial = distinctly named obligations with a symbolic claim that the solver decided (obligations whose claim "
+        "had already been evaluated to a concrete truth value by the run -- bookkeeping facts, finite tables -- are counted separately "
+        "under concrete_obligations)",
+        "concrete_obligations": concrete,
         "samples": (samples[:6] or [q for q in queries[:3]]),
         "functions_encoded": funcs,
         "bounds": bounds,
